@@ -387,24 +387,13 @@ Section XRun.
   Variable S : Type.
   Variable h : forall e : xeff, S -> S * xresp e.
 
-  Fixpoint xrun {A} (p : xprog A) (s : S) : list xeff * S * A :=
-    match p with
-    | XRet a => ([], s, a)
-    | XEff e k =>
-        let '(s', r) := h e s in
-        let '(tr, s'', a) := xrun (k r) s' in
-        (e :: tr, s'', a)
-    end.
-
-  Definition xtrace {A} (p : xprog A) (s : S) : list xeff := fst (fst (xrun p s)).
-
   Lemma xrun_forall {A} (Q : xeff -> Prop) (p : xprog A) :
-    all_xeff Q p -> forall s, Forall Q (xtrace p s).
+    all_xeff Q p -> forall s, Forall Q (xtrace S h p s).
   Proof.
     intros H. induction H as [a|e k HQ Hk IH]; intros s; unfold xtrace in *; simpl.
     - constructor.
     - destruct (h e s) as [s' r]. specialize (IH r s').
-      destruct (xrun (k r) s') as [[tr s''] a]. simpl in *. constructor; auto.
+      destruct (xrun S h (k r) s') as [[tr s''] a]. simpl in *. constructor; auto.
   Qed.
 End XRun.
 
@@ -496,3 +485,81 @@ Proof.
   - intros -> Ho. eapply all_xeff_weaken; [|apply x_template_client_only].
     rewrite (template_lookups_off g i cli Ho). intros e He. exact (client_only_effect_silent e He).
 Qed.
+
+(* ------------------------------------------------------------------ *)
+(* non-vacuity: a handler that says yes to everything, on an empty history *)
+
+Definition yes_resp (e : xeff) : xresp e :=
+  match e return xresp e with
+  | XE _ e0 =>
+      match e0 return resp e0 with
+      | SHistory | SDeployedAll => []
+      | SGet _ => None
+      | SCreate _ | SUpdate _ | SDelete _ => SOk
+      | KExisting _ _ => Some []
+      | KCreate _ => true
+      | KUpdate _ _ => (true, [])
+      | KDelete _ => true
+      | KWait _ | KWaitDelete _ => true
+      | KHookWatch _ _ => true
+      end
+  | XReach | XCaps | XBuild _ _ _ _ | XWriteFile | XGetWaiter _ | XCrdWait _ | XDiscInvalidate | XMapperReset => true
+  | XLookup => false
+  | XGetObj _ => GNotFound
+  | XPostRender m => Some m
+  | XCrdCreate _ _ | XNsCreate _ => CCreated
+  end.
+
+Definition yes_trace {A} (p : xprog A) : list xeff := xtrace unit (fun e s => (s, yes_resp e)) p tt.
+
+Definition ex_chart : xchart :=
+  mkXC 7 1 [mkRes "ConfigMap" "a" [("d:k", "v")]] []
+       [[mkRes "CustomResourceDefinition" "widgets.example.com" []]]
+       (RLookup (fun _ => RDone true)) true true true true.
+
+Definition ex_cfg : xcfg := mkXG true true.
+
+Definition ex_xflags (on : list string) (opt : string) : xflags := mkXF on opt 0 0.
+
+Definition is_crd_create (e : xeff) : bool := match e with XCrdCreate _ _ => true | _ => false end.
+Definition is_ns_create (e : xeff) : bool := match e with XNsCreate TReal => true | _ => false end.
+Definition is_lookup (e : xeff) : bool := match e with XLookup => true | _ => false end.
+
+(* ---- the forms stated in Props/C06.v ---- *)
+Lemma xop_dry_effects' :
+  forall (rn ns : string) (o : xop),
+    xop_dry o = true ->
+    all_xeff (fun e => match e with
+                       | XE TReal SHistory | XE TReal SDeployedAll | XE TReal (SGet _) => True
+                       | XReach | XCaps | XGetObj _ | XPostRender _ | XWriteFile | XGetWaiter TReal => True
+                       | XBuild _ BManifest _ _ | XBuild TReal BCurrent _ _ => True
+                       | XLookup => True
+                       | _ => False
+                       end) (xop_prog rn ns o)
+    /\ all_xeff (fun e => x_cluster_mut e = false /\ x_store_write e = false) (xop_prog rn ns o).
+Proof.
+  intros rn ns o H. destruct (xop_dry_effects rn ns o H) as [H1 H2]. split; [|exact H2].
+  eapply all_xeff_weaken; [|exact H1].
+  intros e He. destruct e as [t e| | |t w v n| | | | |t| | | | |t]; simpl in *; auto;
+    try (destruct t; try destruct e; simpl in *; auto);
+    try (destruct w; simpl in *; auto).
+Qed.
+
+Lemma x_client_only_silent' :
+  forall (rn ns : string) (g : xcfg) (fl : xflags) (c : xchart),
+    fb fl "ClientOnly" = true ->
+    is_dry_run (fb fl "DryRun") (xf_opt fl) = true ->
+    interact_with_remote (is_dry_run (fb fl "DryRun") (xf_opt fl)) (xf_opt fl) && xg_getter g = false ->
+    all_xeff (fun e => x_cluster e = false /\ x_store e = false) (x_install rn ns g fl c).
+Proof. intros. now apply x_client_only_silent. Qed.
+
+Lemma x_template_effects' :
+  forall (rn ns : string) (g : xcfg) (validate include_crds : bool) (cli : xflags) (c : xchart),
+    all_xeff (fun e => x_cluster_mut e = false /\ x_store_write e = false)
+             (x_template rn ns g validate include_crds cli c) /\
+    (validate = false ->
+     all_xeff (fun e => x_cluster e = true -> e = XLookup) (x_template rn ns g validate include_crds cli c)) /\
+    (validate = false ->
+     negb (String.eqb (xf_opt cli) "server" || String.eqb (xf_opt cli) "none" || String.eqb (xf_opt cli) "false") = true ->
+     all_xeff (fun e => x_cluster e = false /\ x_store e = false) (x_template rn ns g validate include_crds cli c)).
+Proof. exact x_template_effects. Qed.
